@@ -36,6 +36,9 @@ def configs(tier):
             out.append(dict(kind="slice", shape=shape, axis=a))
         out.append(dict(kind="layout", shape=shape))
     out.append(dict(kind="layout", shape=[4]))
+    # arrays with trailing (colour / time) axes keep them in place
+    for shape, tr in (([2, 3], [3]), ([3, 3], [2]), ([3, 2], [2, 2]), ([2, 3, 2], [2]), ([3, 3, 3], [3])) if tier == "quick" else (([2, 3], [3]), ([3, 3], [2]), ([3, 3], [3]), ([1, 3], [2]), ([3, 2], [2, 2]), ([2, 2], [2, 2]), ([2, 3, 2], [2]), ([3, 3, 3], [3]), ([2, 2, 2], [2, 2]), ([4], [3])):
+        out.append(dict(kind="layout", shape=shape, trailing=tr))
     return out
 
 
@@ -97,11 +100,13 @@ def body(cfg):
         S.observe("slice", by_voxel.img)
         return
     if k == "layout":
-        a = S.array("a", shape, lo=-10, hi=10)
+        tr = tuple(cfg.get("trailing", ()))
+        a = S.array("a", tuple(shape) + tr, lo=-10, hi=10)
         cartd = darsia.matrixToCartesianIndexing(a.copy(), dim)
         want_shape = [0] * dim
         for m in range(dim):
             want_shape[orient[m][0]] = shape[m]
+        want_shape = tuple(want_shape) + tr
         S.claim("cartesian_layout_shape", tuple(cartd.shape) == tuple(want_shape))
         if tuple(cartd.shape) == tuple(want_shape):
             ok = []
@@ -114,8 +119,8 @@ def body(cfg):
             S.claim("each_voxel_lands_in_the_cartesian_cell_of_the_coordinate_system", S.and_(ok))
         if dim == 2:
             back = darsia.cartesianToMatrixIndexing(cartd)
-            S.claim("matrix_cartesian_matrix_is_identity", S.and_(tuple(back.shape) == shape, S.eq(back, a) if tuple(back.shape) == shape else False))
-            c2 = S.array("c", (shape[1], shape[0]), lo=-10, hi=10)
+            S.claim("matrix_cartesian_matrix_is_identity", S.and_(tuple(back.shape) == tuple(a.shape), S.eq(back, a) if tuple(back.shape) == tuple(a.shape) else False))
+            c2 = S.array("c", (shape[1], shape[0]) + tr, lo=-10, hi=10)
             S.claim("cartesian_matrix_cartesian_is_identity", S.eq(darsia.matrixToCartesianIndexing(darsia.cartesianToMatrixIndexing(c2.copy()), 2), c2))
         S.observe("cart", cartd)
         return
